@@ -38,15 +38,22 @@ func (m *Monitor) TCPRead(c *TCPConn, b []byte) {
 	}
 	cs.buf = append(cs.buf, b...)
 	for {
-		if len(cs.buf) >= 1 && cs.buf[0]&0xC0 != 0 && cs.buf[0]&0xC0 != 0x40 {
-			cs.garbage = true
-			m.ctlEnd(cs, now)
+		// same acceptance rule as the packetiser under test: a valid channel number makes a
+		// ChannelData frame; anything else must carry the STUN magic cookie (the two leading
+		// bits are not inspected by it), else the stream is garbage and will be dropped
+		if len(cs.buf) < 4 {
 			return
 		}
-		if len(cs.buf) >= 8 && cs.buf[0]&0xC0 == 0 && !(cs.buf[4] == 0x21 && cs.buf[5] == 0x12 && cs.buf[6] == 0xA4 && cs.buf[7] == 0x42) {
-			cs.garbage = true
-			m.ctlEnd(cs, now)
-			return
+		isChan := cs.buf[0]&0xC0 == 0x40
+		if !isChan {
+			if len(cs.buf) < 20 {
+				return
+			}
+			if !(cs.buf[4] == 0x21 && cs.buf[5] == 0x12 && cs.buf[6] == 0xA4 && cs.buf[7] == 0x42) {
+				cs.garbage = true
+				m.ctlEnd(cs, now)
+				return
+			}
 		}
 		n, ok := refFrameLen(cs.buf)
 		if !ok || n > len(cs.buf) {
@@ -64,7 +71,7 @@ func refFrameLen(b []byte) (int, bool) {
 	if len(b) < 4 {
 		return 0, false
 	}
-	if b[0]&0xC0 == 0 { // STUN
+	if b[0]&0xC0 != 0x40 { // STUN (identified by its cookie; the caller checks it)
 		return 20 + (int(b[2])<<8 | int(b[3])), true
 	}
 	l := int(b[2])<<8 | int(b[3])
